@@ -253,7 +253,12 @@ class CSSRuleRules(CSSRule):
         # check and optionally parse rule
         if isinstance(rule, str):
             tempsheet = cssutils.css.CSSStyleSheet()
-            tempsheet.cssText = rule
+            sheet = self.parentStyleSheet
+            if sheet is not None:
+                # selectors must see the namespaces of the sheet
+                tempsheet.cssText = (rule, sheet.namespaces)
+            else:
+                tempsheet.cssText = rule
             if len(tempsheet.cssRules) != 1 or (
                 tempsheet.cssRules
                 and not isinstance(tempsheet.cssRules[0], cssutils.css.CSSRule)
